@@ -49,9 +49,10 @@ PROPS = {
     'C19': {
         'level': 'proof',
         'units': ['serde_core'],
+        'bounded': ['libpath_decode'],
         'kani': [],
-        'trusted_base': [T_FELT, T_TOOLS, 'T6 winter-utils ByteReader/ByteWriter contracts (little-endian fixed-width reads, EOF => Err), StarkProof::from_bytes total', 'Kernel::new (sort_by_key / windows closures) contract assumed'],
-        'not_decided': ['decoders of program/module ASTs, instruction nodes and compiled libraries (assembly crate): not yet under contract', 'winter-utils read_many allocation with an attacker-chosen length', 'StackInputs::try_from_values / AdviceInputs::with_stack_values (iterator closures, R8)'],
+        'trusted_base': [T_FELT, T_TOOLS, 'T6 winter-utils ByteReader/ByteWriter contracts (little-endian fixed-width reads, EOF => Err), StarkProof::from_bytes total', 'T4b Digest::as_bytes injective / totally ordered; slice::sort_by_key and windows(2).any(==) contracts (R8 helpers) assumed in Kernel::new'],
+        'not_decided': ['decoders of program/module ASTs, instruction nodes and compiled libraries (assembly crate): not yet under contract', 'LibraryPath::read_from / validate: str slicing is outside Verus reach — only the bounded stand-in libpath_decode covers it', 'winter-utils read_many allocation with an attacker-chosen length', 'StackInputs::try_from_values / AdviceInputs::with_stack_values (iterator closures, R8)'],
         'sample_obligations': ['C19/serde_core/StackOutputs as Deserializable::read_from#ensures.0 : Ok(v) ==> v.wf() (>= 16 elements, canonical, overflow length consistent)',
                                'C19/serde_core/Kernel as Deserializable::read_from#ensures.0 : Ok(k) ==> at most 255 distinct procedures',
                                'C19/serde_core/ExecutionProof::from_bytes#ensures : < 2 bytes or unknown tag ==> Err'],
@@ -87,10 +88,10 @@ PROPS = {
     },
     'C05': {
         'level': 'proof',
-        'units': ['stack', 'ops_field', 'ops_stack', 'ops_u32', 'ops_sys'],
+        'units': ['stack', 'ops_field', 'ops_stack', 'ops_u32', 'ops_sys', 'masm_instr'],
         'kani': [],
-        'trusted_base': [T_FELT, T_TOOLS],
-        'not_decided': ['text->AST parser (assembly/src/ast/parsers): string handling outside both verifiers'],
+        'trusted_base': [T_FELT, T_TOOLS, 'T9 tools/mastdump prints the MAST built by /repo\'s assembler; lib/e2gen.py transcribes it (unit masm_instr: instruction -> operations)'],
+        'not_decided': ['instructions without a lemma in masm_specs/instr_*.py (see the unit detail for the covered list)', 'text->AST parser (assembly/src/ast/parsers): string handling outside both verifiers'],
         'sample_obligations': ['C05/stack/Stack::shift_left#ensures: next_view[i] == (i+1 < depth ? view[i+1] : ZERO) for all i >= start_pos-1; depth\' = max(16, depth-1)'],
     },
     'C08': {
